@@ -2,6 +2,7 @@
 import json, os, re, sys
 import vcommon as V
 import ppgen
+import c14exit
 
 PID = "C14"
 
@@ -134,7 +135,13 @@ def main(replay=None):
 
     cases = []
     lm_cases = []
-    if replay and str(json.load(open(replay))["replay"].get("kind", "")).startswith("linemacro"):
+    ex_cases = []
+    fr_cases = []
+    if replay and str(json.load(open(replay))["replay"].get("kind", "")) == "framepos":
+        fr_cases.append({"kind": "framepos", "text": json.load(open(replay))["replay"]["text"]})
+    elif replay and str(json.load(open(replay))["replay"].get("kind", "")).startswith("exitdiag"):
+        ex_cases.append(c14exit.from_replay(json.load(open(replay))["replay"]))
+    elif replay and str(json.load(open(replay))["replay"].get("kind", "")).startswith("linemacro"):
         r = json.load(open(replay))["replay"]
         lm_cases.append({"kind": r["kind"], "main": r["main"], "files": {k: V.unhx(v).decode("latin-1") for k, v in r["files_hex"].items()},
                          "uses": r["uses"], "diags": r["diags"], "features": r.get("features", [])})
@@ -148,6 +155,9 @@ def main(replay=None):
         if os.path.isdir(cdir):
             for fn in sorted(os.listdir(cdir)):
                 r = json.load(open(os.path.join(cdir, fn)))
+                if str(r.get("kind", "")).startswith("exitdiag"):
+                    ex_cases.append(c14exit.from_replay(r))
+                    continue
                 cases.append({"kind": r["kind"], "main": r["main"], "files": {k: V.unhx(v).decode("latin-1") for k, v in r["files_hex"].items()},
                               "fault_file": r["fault_file"], "expect": [tuple(e) for e in r["expect"]], "col_exact": r["col_exact"],
                               "comment_before": r.get("comment_before", False), "features": r.get("features", ["corpus"]), "nlines": 0})
@@ -156,6 +166,12 @@ def main(replay=None):
         # drawn behind the layouts: the stream of layout cases of a seed stays what it was
         for i in range(10000 if thorough else 1500):
             lm_cases.append(ppgen.linemacro_case(rng))
+        # family 'exitdiag' (checks/c14exit.py): every construct x outcome and every way of leaving a scope twice, then drawn
+        forced = c14exit.CONSTRUCTS * 2 + [("leftscope", w) for w in c14exit.LEFT_WRAPS] * 2
+        for i in range(8000 if thorough else 900):
+            ex_cases.append(c14exit.exit_case(rng, forced[i] if i < len(forced) else None))
+        for i in range(3000 if thorough else 400):
+            fr_cases.append(c14exit.frame_case(rng))
 
     def fenc(c):
         return enc_files({k: v.encode("latin-1") for k, v in c["files"].items()})
@@ -274,10 +290,16 @@ def main(replay=None):
     lm = judge_linemacro(run, himpl, lm_cases)
     for k, n in lm["kinds"].items():
         kinds[k] = kinds.get(k, 0) + n
+    ex = c14exit.judge(run, himpl, ex_cases, parse_msgs, enc_files)
+    for k, n in ex["kinds"].items():
+        kinds[k] = kinds.get(k, 0) + n
+    frs = c14exit.judge_frames(run, himpl, drv, fr_cases)
+    if fr_cases:
+        kinds["framepos"] = len(fr_cases)
     for p in problems:
         run.violation("proof obligation not discharged: " + p, {"broken": p, "theorems": run.cov["theorems"]}, found_input=False)
-    run.cov["evaluations"] = len(cases) + len(lm_cases)
-    run.cov["distinct_nontrivial"] = len(distinct) + lm["distinct"]
+    run.cov["evaluations"] = len(cases) + len(lm_cases) + len(ex_cases) + len(fr_cases)
+    run.cov["distinct_nontrivial"] = len(distinct) + lm["distinct"] + ex["distinct"] + frs["distinct"]
     run.cov["rule"] = ("layouts from checks/ppgen.py:Layout (comment blocks, single- and multi-line defines, active/inactive conditional "
                        "sections with else, includes nested up to depth 3 entering and returning, CRLF per file, <= 60 lines) of statements that "
                        "run without diagnostics, followed by one injected fault at a generated file/line/column: parse error, runtime error, "
@@ -294,19 +316,42 @@ def main(replay=None):
                        "the layout family; every use line must come out as the text the generator computes from 'the line and file where the "
                        "use is written' (blanks next to brackets/commas ignored), and the preprocessor diagnostics of an expansion (10013 empty "
                        "argument in the text or in a body, 10014 macro using itself: directly, through a second macro, plain / pasted / "
-                       "stringified, object- and function-like) must be located at exactly the uses that raise them (file and line)")
+                       "stringified, object- and function-like) must be located at exactly the uses that raise them (file and line). "
+                       "Family 'exitdiag' (checks/c14exit.py, implementation-only oracle: the generator's positions): diagnostics whose "
+                       "location comes from a frame that is not executing an instruction - raised by the exit behaviour of a scope after its "
+                       "block has finished (while / waitUntil condition, count / select / findIf predicate: value of the wrong type 60068, nil or "
+                       "a block ending in an assignment 60069 / 60068, 'found no value' 60081 where a tree raises it; for: loop variable "
+                       "overwritten 60084; forEach / apply: array resized 60088; whichever of these a case raises is judged) - over blocks of 1-4 statements on several lines with the layout elements of the layout family between "
+                       "the statements, the head or the tail of the block in an included file, the closing brace / comments / directives "
+                       "behind the last statement, the construct nested in call / then / a function called later / spawn or hosted in an "
+                       "included file, arrays of 1-3 elements with the rejected element at any index, a condition that fails in a later "
+                       "round; every message must name file, line and column (no column when a macro is used on that line) of the root token "
+                       "of the block's last statement, the header and the innermost entry of the stack trace the same token, the next entries "
+                       "the operator of the construct and the call / then around it; sub-family 'leftscope': an error inside the block of "
+                       "exitWith (scope = file, call, then, function, apply / forEach / while / for body), the entry of the scope that was "
+                       "left must name the exitWith token. "
+                       "Family 'framepos' (correspondence with the extracted model coq/PP/FramePos.v): blocks of 1-5 such statements are "
+                       "parsed by the real parser, a frame over the instructions is moved by frame::next() 0 .. len+3 times and asked for "
+                       "diag_info_from_position() each time; it must be the diag_info of the instruction the model names (not started: the "
+                       "first, standing on instruction k: k, behind the last one: the last)")
     run.cov["line_macro_family"] = {k: v for k, v in lm.items() if k != "samples"}
+    run.cov["exit_diag_family"] = {k: v for k, v in ex.items() if k != "samples"}
+    run.cov["frame_position_family"] = frs
     run.cov["input_distribution"] = kinds
     run.cov["layout_features"] = feats
-    run.cov["samples"] = samples + lm["samples"]
+    run.cov["samples"] = samples + lm["samples"] + ex["samples"]
     run.cov["outcomes"] = stats
     run.cov["conventions_observed"] = ("lines 1-based; columns 0-based byte offsets (tab = 1, CR not counted); runtime error 60076 and its stack "
                                        "trace entry point at the operator token, parse error 30015 at the unexpected token, 60070 at the identifier; "
-                                       "the caller's stack-trace entry points at its 'call'; '#line N \"f\"' sets the NEXT line to N+1")
+                                       "the caller's stack-trace entry points at its 'call'; '#line N \"f\"' sets the NEXT line to N+1; root token of a "
+                                       "statement = the last instruction it compiles to: binary / unary operator token, '=' of an assignment, the name "
+                                       "behind 'private', '[' of an array literal, the literal or identifier itself")
     run.cov["trusted_base"] = ["Coq 8.16.1 kernel (vm_compute in witnesses/Examples only)", "ExtrOcamlBasic extraction + ocaml/pp_driver.ml",
                                "harness/h_pp.cpp + harness/sqfrt.hpp (RecLogger reads location() of every message) + fork/rlimit plumbing",
                                "layout generator in checks/ppgen.py (for the linemacro family also its expected-text evaluator LineMacros.ev)",
+                               "checks/c14exit.py: generator of the exitdiag family and its bookkeeping of marked token positions",
                                "models PP/Spec.v (emission rules) and PP/Tracker.v (tokenizer bookkeeping) are hand-written; tied to default.cpp / "
                                "tokenizer.hpp only by this differential run; the parser's use of token positions (sqf_parser.cpp) and the runtime's "
-                               "use of diag_info (frame.h, logging.cpp) are observed end to end, not modelled"]
+                               "use of diag_info (logging.cpp, the exit behaviours of the operators) are observed end to end, not modelled; "
+                               "frame::next / diag_info_from_position (frame.h) are modelled in PP/FramePos.v and tied by the framepos run"]
     return run.finish()
